@@ -448,8 +448,10 @@ func c17Merge(c *Ctx) {
 				continue
 			}
 			want := mk("rangeval", "", srcForm, k.Args[1])
+			// the merged request's value for that key: the range value, or the same thing looked up again
+			want2 := mk("lookup", "", srcForm, k)
 			usesOwn := v.Mentions(func(t *Term) bool { return t.Op == "field" && t.Name == "Form" && addrRoot(t).Key() == a.Key() })
-			if !v.Contains(want.Key()) || usesOwn {
+			if !(v.Contains(want.Key()) || v.Contains(want2.Key())) || usesOwn {
 				ok, w, why = false, p, "the receiver's form value for a merged key is "+clip(v.Pretty(), 100)+": it must be exactly the merged request's value (the receiver's own value may not survive)"
 			}
 		}
